@@ -6,6 +6,9 @@
 #include "preprocessing.h"
 #include "numeric.h"
 #define MISS(i,j) (((HP_MASK) >> ((i)*HP_C+(j))) & 1)
+#ifndef HP_APPLYONLY
+#define HP_APPLYONLY 0
+#endif
 void harness(void){
   matrix *x, *tr, *tr2; NewMatrix(&x,HP_M,HP_C); NewMatrix(&tr,HP_M,HP_C); NewMatrix(&tr2,HP_M,HP_C);
   double X[HP_M][HP_C];
@@ -51,20 +54,24 @@ void harness(void){
     for(size_t i=0;i<HP_M;i++) if(!MISS(i,j)) CHECK_EQ(tr->data[i][j], 0.0, "constant column becomes exactly zero");
 #endif
 #else
-#if HP_TYPE==5
+#if HP_APPLYONLY
+    /* apply = fit is claimed for EVERY scaling value (both paths must treat a small scaling alike) */
+#elif HP_TYPE==5
     ASSUME(S>=1e-3 || S<=-1e-3);               /* level scaling divides by the column mean ("arbitrary offsets"): only the documented zero-scale guard applies */
 #else
     ASSUME(S>=0.02 || S<=-0.02);               /* spread bound from the property */
 #endif
     double colsum=0, colsq=0, tmn=0, tmx=0; first=1;
+#if !HP_APPLYONLY
     for(size_t i=0;i<HP_M;i++) if(!MISS(i,j)){
       CHECK_EQ(tr->data[i][j]*S, X[i][j]-mean, "transformed cell = (x - mean)/scaling, unaffected by missing cells");
       colsum+=tr->data[i][j]; colsq+=tr->data[i][j]*tr->data[i][j];
       if(first||tr->data[i][j]<tmn) tmn=tr->data[i][j]; if(first||tr->data[i][j]>tmx) tmx=tr->data[i][j]; first=0; }
     CHECK_EQ(colsum, 0.0, "zero column mean");
-#if HP_TYPE==1
+#endif
+#if HP_TYPE==1 && !HP_APPLYONLY
     CHECK_EQ(colsq, (double)(n-1), "option 1: unit sample standard deviation");
-#elif HP_TYPE==4 && HP_MASK==0
+#elif HP_TYPE==4 && HP_MASK==0 && !HP_APPLYONLY
     CHECK_EQ(tmx-tmn, 1.0, "option 4: unit range");
 #endif
 #endif
@@ -81,8 +88,12 @@ void harness(void){
   { matrix *nw,*tn; NewMatrix(&nw,1,HP_C); initMatrix(&tn); for(size_t j=0;j<HP_C;j++) nw->data[0][j]=in_double(-1e6,1e6);
     MatrixPreprocess(nw, -1, avg, sc, tn);
     CHECK(tn->row==1 && tn->col==HP_C, "apply sizes the output");
-#if !HP_CONST
+#if !HP_CONST && !HP_APPLYONLY
     for(size_t j=0;j<HP_C;j++) CHECK_EQ(tn->data[0][j]*sc->data[j], nw->data[0][j]-avg->data[j], "apply(new row) = (x - mean)/scaling");
+#elif HP_APPLYONLY
+    /* new rows get the same treatment as training rows: either the affine map or (scaling treated as null) zeros - decided per column exactly as at fit */
+    for(size_t j=0;j<HP_C;j++){ int fit_zeroed=1; for(size_t i=0;i<HP_M;i++) if(!MISS(i,j) && !(tr->data[i][j]==0.0)) fit_zeroed=0;
+      if(!fit_zeroed) CHECK_EQ(tn->data[0][j]*sc->data[j], nw->data[0][j]-avg->data[j], "a column scaled at fit is scaled at apply"); }
 #else
     for(size_t j=0;j<HP_C;j++){ if(sc->data[j]<1e-3 && sc->data[j]>-1e-3) CHECK_EQ(tn->data[0][j], 0.0, "apply with a zero scaling gives zeros, not NaN/Inf"); }
 #endif
